@@ -92,10 +92,12 @@ impl Server {
                     "metadata": svc_meta(tag, item), "protectThreshold": 0.5}));
                 self.puts.insert((Kind::Naming, format!("{}|svc|DEFAULT_GROUP|{}", id, svc_name(tag, item))), r);
             }
-            let r = Req::new("POST", "/v2/instance/add").json(json!({
-                "serviceName": svc_name(tag, 1), "namespaceId": id, "groupName": "DEFAULT_GROUP", "ip": inst_ip(idx), "port": 8080,
-                "ephemeral": "false", "weight": 1.0, "enabled": true, "metadata": inst_meta(tag)}));
-            self.puts.insert((Kind::Naming, format!("{}|inst|DEFAULT_GROUP|{}|{}:8080", id, svc_name(tag, 1), inst_ip(idx))), r);
+            for item in [1u8, 2u8] {
+                let r = Req::new("POST", "/v2/instance/add").json(json!({
+                    "serviceName": svc_name(tag, item), "namespaceId": id, "groupName": "DEFAULT_GROUP", "ip": inst_ip_of(idx, item), "port": 8080,
+                    "ephemeral": "false", "weight": 1.0, "enabled": true, "metadata": inst_meta_of(tag, item)}));
+                self.puts.insert((Kind::Naming, format!("{}|inst|DEFAULT_GROUP|{}|{}:8080", id, svc_name(tag, item), inst_ip_of(idx, item))), r);
+            }
             let r = Req::new("POST", "/v2/mcp/toolspec/add").json(json!({
                 "namespace": id, "group": "tg", "toolName": tool_name(tag), "function": tool_function(&tool_name(tag), &format!("sx-{}-t1", tag))}));
             self.puts.insert((Kind::ToolSpec, format!("{}|tg|{}", id, tool_name(tag))), r);
@@ -133,7 +135,7 @@ impl Server {
             self.fixture.insert(kind, s);
         }
         // self-test: the administrator must see exactly what was created
-        let expect = [(Kind::Config, 2 * DATA_NS), (Kind::Naming, 3 * DATA_NS), (Kind::Namespace, EXISTING_NS), (Kind::ToolSpec, DATA_NS), (Kind::McpServer, DATA_NS)];
+        let expect = [(Kind::Config, 2 * DATA_NS), (Kind::Naming, 4 * DATA_NS), (Kind::Namespace, EXISTING_NS), (Kind::ToolSpec, DATA_NS), (Kind::McpServer, DATA_NS)];
         for (kind, n) in expect {
             let got = self.fixture.get(&kind).map(|s| s.len()).unwrap_or(0);
             if got != n {
